@@ -242,6 +242,23 @@ func dialAgainst(rng *rand.Rand, behaviour string, deadline time.Duration, how s
 			<-stop
 		case "close-early":
 			c.Write([]byte("Callsign :\r"))
+		case "trickle-banner", "trickle-callsign-prompt":
+			// CR terminated lines that never complete the login, one every 100 ms for as long as the dialler stays
+			line := "*** node banner, please wait\r"
+			if behaviour == "trickle-callsign-prompt" {
+				line = "Callsign :\r"
+			}
+			go io.Copy(io.Discard, c)
+			for i := 0; i < 80; i++ {
+				if _, err := c.Write([]byte(line)); err != nil {
+					break
+				}
+				select {
+				case <-stop:
+					return
+				case <-time.After(100 * time.Millisecond):
+				}
+			}
 		case "stall-after-callsign":
 			c.Write([]byte("Callsign :\r"))
 			readLine()
@@ -362,8 +379,8 @@ func Main(args []string) int {
 			mu.Unlock()
 		}()
 	}
-	calls := []string{"LA5NTA", "la5nta-7", "N0CALL", "A", "call with space", "blåbær", strings.Repeat("X", 1000), "tab\tcall", "a@b.c"}
-	pws := []string{"CMSTelnet", "", "pass word", "pässword", strings.Repeat("p", 1000), "x"}
+	calls := []string{"LA5NTA", "la5nta-7", "N0CALL", "A", "call with space", "blåbær", strings.Repeat("X", 1000), "tab\tcall", "a@b.c", "LA5NTA%Test", "%s%d%%"}
+	pws := []string{"CMSTelnet", "", "pass word", "pässword", strings.Repeat("p", 1000), "x", "100%", "%v%n%"}
 	hows := []string{"Dial", "DialTimeout", "DialContext", "DialURL"}
 	for i := 0; i < *n; i++ {
 		call, pw, how := calls[i%len(calls)], pws[(i/2)%len(pws)], hows[i%len(hows)]
@@ -385,7 +402,7 @@ func Main(args []string) int {
 			}
 		}
 	}
-	behaviours := []string{"silent", "partial-prompt", "garbage", "close-early", "stall-after-callsign", "normal", "split-prompts", "coalesced-payload", "motd-first"}
+	behaviours := []string{"trickle-banner", "trickle-callsign-prompt", "silent", "partial-prompt", "garbage", "close-early", "stall-after-callsign", "normal", "split-prompts", "coalesced-payload", "motd-first"}
 	dhows := []string{"DialContext", "DialTimeout", "DialURLContext", "dial_timeout"}
 	for bi, b := range behaviours {
 		for hi, how := range dhows {
